@@ -101,10 +101,7 @@ impl mpsc::UnboundedSender<Responded> {
 }
 
 // ---- R-select / R-pending / tokio::time stand-ins
-#[verifier::external_body]
-pub fn vx_select() -> usize { unimplemented!() }
-/// tokio's select! panics when every arm is disabled and there is no else arm
-pub fn vx_select_idle(some_arm_enabled: bool) requires some_arm_enabled {}
+
 #[verifier::external_body]
 pub fn vx_pending() ensures false { unimplemented!() }
 #[verifier::external_body]
